@@ -1,23 +1,28 @@
 (* Model/ArpSpoof.v — event-system model of handlers/arp_spoofer (arp.go, spoof.go).
 
-   Mirrors the Go code statement by statement, defects included:
-     StartHunt / StopHunt / Close           spoof.go:32-68, arp.go:62-70
-     spoofLoop (one iteration = Wake)       spoof.go:74-124   (membership looked up by MAC, the map key,
-                                                               since the repair of DESIGN #27; before it: findHuntByIP)
-     ProcessPacket (RxArp)                  arp.go:284-398
-   plus the one session fact ProcessPacket consults (DHCPv4IPOffer), which the
-   environment changes with SetOffer.
+   Mirrors the Go code statement by statement:
+     StartHunt / StopHunt / Close                  spoof.go, arp.go:62-70
+     spoofLoop                                     spoof.go: one iteration is THREE events, cut at the points
+                                                   where the goroutine holds no lock:
+         Lookup i   pass the select (ticker / closeChan) or start; Lock; huntList[addr.MAC]; Unlock
+         Check i    read h.closed and decide: return silently / send the restoring request and return /
+                    send the forged announcement and go on
+         Send i     the WriteTo of the decided frame (may fail), then select or return
+       so that StartHunt, StopHunt, Close, received packets and other loops interleave BETWEEN lookup,
+       decision and send.  (Check reads h.closed twice, "!hunting || h.closed" and "!h.closed"; a Close
+       between the two reads gives the same result as a Close just before Check, so one event suffices.)
+     ProcessPacket                                 arp.go: RxArp (decoded, valid packet) and RxRaw (any
+                                                   EtherType and payload bytes: PayloadID test, ARP.IsValid,
+                                                   field decoding with Go's slice-bound panics)
+     public send API                               Request, RequestTo, Probe, AnnounceTo, RequestRaw, Reply,
+                                                   Scan, WhoIs
+   Environment events: SetOffer (the session's DHCPv4IPOffer changes), FailWrites k (the connection fails
+   its next k WriteTo calls).
 
-   Granularity / atomicity: one event = one critical section or one loop
-   iteration.  A loop iteration (lookup under arpMutex, test of h.closed,
-   send) is modelled as atomic; the Go code releases the mutex between the
-   lookup and the send and reads h.closed without a lock, so a StopHunt or
-   Close that lands inside that window (microseconds) is ordered after the
-   Wake in the model.  Sends are assumed to succeed (the loop returns when
-   AnnounceTo fails; a recording/real connection that fails is outside the
-   model).  Real time does not appear here: a Wake is "loop i passes its
-   select (ticker or closeChan) or starts running". *)
-From PV Require Import Base.Prelude.
+   Residue (not in the model): ProcessPacket's request branch also unlocks arpMutex before it replies (same
+   shape of window as the loop's, one frame per call); Scan is atomic here although Close can land between
+   two of its requests; h.closed is read without a lock; real time (see the fairness hypothesis below). *)
+From PV Require Import Base.Prelude Base.Slice.
 Open Scope N_scope.
 
 Definition mac := N.   (* 48-bit value of the 6 address bytes, big endian *)
@@ -28,6 +33,7 @@ Record addr := mkAddr { amac : mac; aip : ip4 }.
 (* NICInfo facts the handler reads *)
 Record cfg := mkCfg {
   host_mac : mac;      (* NICInfo.HostAddr4.MAC *)
+  host_ip : ip4;       (* NICInfo.HostAddr4.IP *)
   router_mac : mac;    (* NICInfo.RouterAddr4.MAC *)
   router_ip : ip4;     (* NICInfo.RouterAddr4.IP *)
   lan_addr : ip4;      (* NICInfo.HomeLAN4 address *)
@@ -35,6 +41,7 @@ Record cfg := mkCfg {
 }.
 
 Definition MAC_BCAST : mac := 281474976710655.   (* ff:ff:ff:ff:ff:ff *)
+Definition MAC_ZERO : mac := 0.
 Definition IP4_BCAST : ip4 := 4294967295.        (* 255.255.255.255 = packet.IP4Broadcast *)
 Definition IP4_ZERO : ip4 := 0.                  (* packet.IPv4zero *)
 
@@ -53,25 +60,49 @@ Record frame := mkFrame {
 Record arp_pkt := mkPkt {
   pop : N; pethsrc : mac; psmac : mac; psip : ip4; ptmac : mac; ptip : ip4 }.
 
-Record loop := mkLoop { laddr : addr; alive : bool }.
+(* where a spoofLoop goroutine stands *)
+Inductive pc :=
+| PTop                              (* started, first iteration not begun *)
+| PLooked (found : option addr)     (* lookup done under the lock, lock released *)
+| PSend (f : frame) (cont : bool)   (* frame decided; cont: the loop goes on to its select afterwards *)
+| PWait                             (* in the select *)
+| PDone                             (* returned *)
+| PDied.                            (* returned because the announcement's write failed (defect K4: the hunt
+                                       entry stays, nothing spoofs or restores that MAC any more) *)
+
+Record loop := mkLoop { laddr : addr; lpc : pc }.
 
 Record state := mkState {
   hunt : list addr;            (* huntList: at most one entry per MAC (key = amac) *)
   loops : list loop;           (* every spoofLoop goroutine ever started, in start order *)
   closed : bool;               (* h.closed / closeChan closed *)
-  offers : list (mac * ip4)    (* session view: MACEntry.IP4Offer when it Is4() *)
+  offers : list (mac * ip4);   (* session view: MACEntry.IP4Offer when it Is4() *)
+  failn : nat                  (* the connection fails its next failn writes *)
 }.
 
-Definition init_state : state := mkState [] [] false [].
+Definition init_state : state := mkState [] [] false [] 0.
 
 Inductive event :=
 | StartHunt (a : addr)            (* StartHunt with a 6-byte MAC and an IPv4 address *)
 | StartHuntInvalid                (* StartHunt with nil MAC or an address that is not Is4(): ErrInvalidIP *)
 | StopHunt (m : mac)
 | Close
-| Wake (i : nat)                  (* loop i runs one iteration (goroutine start, ticker or closeChan) *)
+| Lookup (i : nat)
+| Check (i : nat)
+| Send (i : nat)
 | RxArp (p : arp_pkt)             (* ProcessPacket on a valid ARP frame *)
-| SetOffer (m : mac) (o : option ip4).   (* environment: the session's DHCP offer for m changes *)
+| RxRaw (ethertype : N) (payload : bytes)   (* ProcessPacket on whatever Parse hands over *)
+| SetOffer (m : mac) (o : option ip4)       (* environment: the session's DHCP offer for m changes *)
+| FailWrites (k : nat)            (* environment: the next k writes to the connection fail *)
+(* public send API, IPv4 arguments *)
+| ApiRequest (ip : ip4)
+| ApiRequestTo (dst : mac) (ip : ip4)
+| ApiProbe (ip : ip4)
+| ApiAnnounceTo (dst : mac) (ip : ip4)
+| ApiRequestRaw (dst : mac) (sender target : addr)
+| ApiReply (dst : mac) (sender target : addr)
+| ApiScan
+| ApiWhoIs (ip : ip4) (tries : nat).   (* tries: how many times session.FindIP(ip) fails (environment), 3 at most count *)
 
 (* ---------------------------------------------------------------- *)
 (* hunt list *)
@@ -97,9 +128,16 @@ Definition offers_set (m : mac) (x : option ip4) (o : list (mac * ip4)) : list (
 (* ---------------------------------------------------------------- *)
 (* frames the handler builds *)
 
-(* AnnounceTo(dst, routerIP): RequestRaw(dst, {hostMAC, routerIP}, {broadcast, routerIP}) *)
-Definition announce (c : cfg) (dst : mac) : frame :=
-  mkFrame 1 dst (host_mac c) (router_ip c) MAC_BCAST (router_ip c).
+(* RequestRaw(dst, sender, target) / reply(dst, sender, target) *)
+Definition request_raw (dst : mac) (sender target : addr) : frame :=
+  mkFrame 1 dst (amac sender) (aip sender) (amac target) (aip target).
+Definition reply_raw (dst : mac) (sender target : addr) : frame :=
+  mkFrame 2 dst (amac sender) (aip sender) (amac target) (aip target).
+
+(* AnnounceTo(dst, ip): RequestRaw(dst, {hostMAC, ip}, {broadcast, ip}) *)
+Definition announce_ip (c : cfg) (dst : mac) (ip : ip4) : frame :=
+  mkFrame 1 dst (host_mac c) ip MAC_BCAST ip.
+Definition announce (c : cfg) (dst : mac) : frame := announce_ip c dst (router_ip c).
 
 (* RequestRaw(addr.MAC, RouterAddr4, RouterAddr4): restores the router's real MAC *)
 Definition restore (c : cfg) (dst : mac) : frame :=
@@ -113,44 +151,94 @@ Definition spoof_reply (c : cfg) (p : arp_pkt) : frame :=
 Definition probe_reject (c : cfg) (p : arp_pkt) : frame :=
   mkFrame 2 (psmac p) (host_mac c) (ptip p) (psmac p) IP4_BCAST.
 
+(* Request / RequestTo: RequestRaw(dst, HostAddr4, {broadcast, ip}) *)
+Definition request_to (c : cfg) (dst : mac) (ip : ip4) : frame :=
+  mkFrame 1 dst (host_mac c) (host_ip c) MAC_BCAST ip.
+
+(* Probe(ip): RequestRaw(broadcast, {hostMAC, 0.0.0.0}, {00:00:00:00:00:00, ip}) *)
+Definition probe_frame (c : cfg) (ip : ip4) : frame :=
+  mkFrame 1 MAC_BCAST (host_mac c) IP4_ZERO MAC_ZERO ip.
+
+(* ---------------------------------------------------------------- *)
+(* the one place where frames leave: session.Conn.WriteTo *)
+
+Definition set_failn (s : state) (k : nat) : state := mkState (hunt s) (loops s) (closed s) (offers s) k.
+
+(* result: new state, what went onto the wire, whether WriteTo returned nil *)
+Definition wr (s : state) (f : frame) : state * list frame * bool :=
+  match failn s with
+  | O => (s, [f], true)
+  | S k => (set_failn s k, [], false)
+  end.
+
 (* ---------------------------------------------------------------- *)
 (* steps *)
 
-Definition set_hunt (s : state) (h : list addr) : state := mkState h (loops s) (closed s) (offers s).
-Definition set_loops (s : state) (l : list loop) : state := mkState (hunt s) l (closed s) (offers s).
-Definition set_closed (s : state) : state := mkState (hunt s) (loops s) true (offers s).
-Definition set_offers (s : state) (o : list (mac * ip4)) : state := mkState (hunt s) (loops s) (closed s) o.
+Definition set_hunt (s : state) (h : list addr) : state := mkState h (loops s) (closed s) (offers s) (failn s).
+Definition set_loops (s : state) (l : list loop) : state := mkState (hunt s) l (closed s) (offers s) (failn s).
+Definition set_closed (s : state) : state := mkState (hunt s) (loops s) true (offers s) (failn s).
+Definition set_offers (s : state) (o : list (mac * ip4)) : state := mkState (hunt s) (loops s) (closed s) o (failn s).
 
 (* StartHunt: found -> return; else insert and "go h.spoofLoop(addr)" *)
 Definition start_hunt (s : state) (a : addr) : state * list frame :=
   if hunt_has (amac a) (hunt s) then (s, [])
-  else (mkState (hunt s ++ [a]) (loops s ++ [mkLoop a true]) (closed s) (offers s), []).
+  else (mkState (hunt s ++ [a]) (loops s ++ [mkLoop a PTop]) (closed s) (offers s) (failn s), []).
 
 (* StopHunt: delete(h.huntList, mac); nothing is sent here *)
 Definition stop_hunt (s : state) (m : mac) : state * list frame :=
   (set_hunt s (hunt_del m (hunt s)), []).
 
-Definition kill (i : nat) (l : list loop) : list loop :=
+Definition set_pc (i : nat) (p : pc) (l : list loop) : list loop :=
   match nth_error l i with
-  | Some lp => set_nth i (mkLoop (laddr lp) false) l
+  | Some lp => set_nth i (mkLoop (laddr lp) p) l
   | None => l
   end.
 
-(* one iteration of spoofLoop, from the top of the for to the select *)
-Definition wake (c : cfg) (s : state) (i : nat) : state * list frame :=
+(* the announcement's WriteTo failed: "return" in the original code; since the repair the loop logs the
+   error and tries again at the next tick *)
+Definition ANNOUNCE_ERROR_ENDS_LOOP : bool := true.
+
+(* Lock; targetAddr, hunting := h.huntList[string(addr.MAC)]; Unlock *)
+Definition lookup (s : state) (i : nat) : state * list frame :=
   match nth_error (loops s) i with
-  | None => (s, [])
   | Some lp =>
-      if negb (alive lp) then (s, [])     (* the goroutine has returned: nothing can happen *)
-      else
-        match hunt_find (amac (laddr lp)) (hunt s) with
-        | Some target =>
-            if closed s then (set_loops s (kill i (loops s)), [])            (* !hunting || h.closed; closed: no restore *)
-            else (s, [announce c (amac target)])                               (* AnnounceTo(targetAddr.MAC, router IP) *)
-        | None =>
-            if closed s then (set_loops s (kill i (loops s)), [])
-            else (set_loops s (kill i (loops s)), [restore c (amac (laddr lp))]) (* RequestRaw(addr.MAC, router, router) *)
-        end
+      match lpc lp with
+      | PTop | PWait => (set_loops s (set_pc i (PLooked (hunt_find (amac (laddr lp)) (hunt s))) (loops s)), [])
+      | _ => (s, [])        (* not at this point of the program: nothing happens *)
+      end
+  | None => (s, [])
+  end.
+
+(* "if !hunting || h.closed { if !h.closed { RequestRaw(restore) }; return }; AnnounceTo(targetAddr.MAC, routerIP)" up to the write *)
+Definition check (c : cfg) (s : state) (i : nat) : state * list frame :=
+  match nth_error (loops s) i with
+  | Some lp =>
+      match lpc lp with
+      | PLooked found =>
+          let p :=
+            match found with
+            | Some target => if closed s then PDone else PSend (announce c (amac target)) true
+            | None => if closed s then PDone else PSend (restore c (amac (laddr lp))) false
+            end in
+          (set_loops s (set_pc i p (loops s)), [])
+      | _ => (s, [])
+      end
+  | None => (s, [])
+  end.
+
+(* the write, and what follows it *)
+Definition send (s : state) (i : nat) : state * list frame :=
+  match nth_error (loops s) i with
+  | Some lp =>
+      match lpc lp with
+      | PSend f cont =>
+          let '(s1, out, ok) := wr s f in
+          let p := if cont then (if ok then PWait else if ANNOUNCE_ERROR_ENDS_LOOP then PDied else PWait)
+                   else PDone in
+          (set_loops s1 (set_pc i p (loops s1)), out)
+      | _ => (s, [])
+      end
+  | None => (s, [])
   end.
 
 Inductive arp_class := CReply | CRequest | CProbe | CAnnouncement | CInvalidOp | CLinkLocal.
@@ -164,22 +252,87 @@ Definition classify (p : arp_pkt) : arp_class :=
     else CRequest
   else CInvalidOp.
 
+Definition wr2 (s : state) (f : frame) : state * list frame := fst (wr s f).
+
 (* ProcessPacket after the PayloadID / IsValid tests (h.closed is read without a lock: residue) *)
 Definition rx_arp (c : cfg) (s : state) (p : arp_pkt) : state * list frame :=
-  if closed s then (s, [])       (* "if h.closed { return nil }" (repair of K3) *)
+  if closed s then (s, [])
   else
   match classify p with
   | CRequest =>
       if hunt_has (psmac p) (hunt s) && (ptip p =? router_ip c)
-      then (s, [spoof_reply c p]) else (s, [])
+      then wr2 s (spoof_reply c p) else (s, [])
   | CProbe =>
       match offer_of (psmac p) (offers s) with
       | Some offer =>
-          if negb (offer =? ptip p) && (in_lan c (ptip p) && negb (ptip p =? router_ip c))   (* not for the router's address: repair of K1 *)
-          then (s, [probe_reject c p]) else (s, [])
+          if negb (offer =? ptip p) && (in_lan c (ptip p) && negb (ptip p =? router_ip c))
+          then wr2 s (probe_reject c p) else (s, [])
       | None => (s, [])
       end
   | _ => (s, [])
+  end.
+
+(* ---- ProcessPacket from bytes: PayloadID, ARP.IsValid and the field getters with Go's slice rules ---- *)
+
+Definition N_of_bytes (l : bytes) : N := fold_left (fun acc b => acc * 256 + b) l 0.
+
+Definition ARP_LEN : nat := 28.
+
+(* ARP.IsValid *)
+Definition arp_is_valid (b : slice) : res unit :=
+  if Nat.ltb (len b) ARP_LEN then Err EFrameLen
+  else (ht <- be16_at b 0 ;;
+        if negb (ht =? 1) then Err EParseFrame
+        else (pr <- be16_at b 2 ;;
+              if negb (pr =? 2048) then Err EOther
+              else (hl <- idx b 4 ;;
+                    if negb (hl =? 6) then Err EOther
+                    else (pl <- idx b 5 ;;
+                          if negb (pl =? 4) then Err EOther else Ok tt))))%res.
+
+(* Operation(), SrcMAC() = b[8:14], SrcIP() = b[14:18], DstMAC() = b[18:24], DstIP() = b[24:28] *)
+Definition arp_decode (ethsrc : mac) (b : slice) : res arp_pkt :=
+  (op <- be16_at b 6 ;;
+   sm <- sl b 8 14 ;;
+   si <- sl b 14 18 ;;
+   tm <- sl b 18 24 ;;
+   ti <- sl b 24 28 ;;
+   Ok (mkPkt op ethsrc (N_of_bytes (view sm)) (N_of_bytes (view si)) (N_of_bytes (view tm)) (N_of_bytes (view ti))))%res.
+
+Definition ETH_P_ARP : N := 2054.
+
+(* Parse gives PayloadID = PayloadARP exactly for EtherType 0x0806; ProcessPacket: PayloadID test,
+   IsValid, then the packet logic *)
+Definition process_raw (c : cfg) (s : state) (ethertype : N) (payload : bytes) : res (state * list frame) :=
+  if negb (ethertype =? ETH_P_ARP) then Err EParseFrame
+  else (let b := of_bytes payload in
+        _ <- arp_is_valid b ;;
+        p <- arp_decode 0 b ;;
+        Ok (rx_arp c s p))%res.
+
+(* ---- public send API ---- *)
+
+(* Scan: "for host := 1; host < n; host++ { ip = ip.Next(); skip router and host; if h.closed return; Request(ip) ... }"
+   with n = 2^(32-bits) - 1; a write error that is not temporary ends the scan *)
+Definition scan_ips (c : cfg) : list ip4 :=
+  map (fun k => lan_addr c + N.of_nat k) (seq 1 (N.to_nat (2 ^ (32 - lan_bits c) - 2))).
+
+Fixpoint scan_go (c : cfg) (s : state) (ips : list ip4) : state * list frame :=
+  match ips with
+  | [] => (s, [])
+  | ip :: r =>
+      if (ip =? router_ip c) || (ip =? host_ip c) then scan_go c s r
+      else if closed s then (s, [])
+      else let '(s1, out, ok) := wr s (request_to c MAC_BCAST ip) in
+           if ok then let '(s2, out2) := scan_go c s1 r in (s2, (out ++ out2)%list) else (s1, out)
+  end.
+
+(* WhoIs: up to three rounds of "FindIP fails -> Request(ip)"; a write error ends it *)
+Fixpoint whois_go (c : cfg) (s : state) (ip : ip4) (n : nat) : state * list frame :=
+  match n with
+  | O => (s, [])
+  | S n' => let '(s1, out, ok) := wr s (request_to c MAC_BCAST ip) in
+            if ok then let '(s2, out2) := whois_go c s1 ip n' in (s2, (out ++ out2)%list) else (s1, out)
   end.
 
 Definition step (c : cfg) (s : state) (e : event) : state * list frame :=
@@ -188,9 +341,21 @@ Definition step (c : cfg) (s : state) (e : event) : state * list frame :=
   | StartHuntInvalid => (s, [])
   | StopHunt m => stop_hunt s m
   | Close => (set_closed s, [])
-  | Wake i => wake c s i
+  | Lookup i => lookup s i
+  | Check i => check c s i
+  | Send i => send s i
   | RxArp p => rx_arp c s p
+  | RxRaw et b => match process_raw c s et b with Ok r => r | _ => (s, []) end
   | SetOffer m o => (set_offers s (offers_set m o (offers s)), [])
+  | FailWrites k => (set_failn s k, [])
+  | ApiRequest ip => wr2 s (request_to c MAC_BCAST ip)
+  | ApiRequestTo dst ip => wr2 s (request_to c dst ip)
+  | ApiProbe ip => wr2 s (probe_frame c ip)
+  | ApiAnnounceTo dst ip => wr2 s (announce_ip c dst ip)
+  | ApiRequestRaw dst sender target => wr2 s (request_raw dst sender target)
+  | ApiReply dst sender target => wr2 s (reply_raw dst sender target)
+  | ApiScan => scan_go c s (scan_ips c)
+  | ApiWhoIs ip n => whois_go c s ip (Nat.min n 3)
   end.
 
 (* the run: for every position the state before the event, the event and what it emitted *)
@@ -218,27 +383,71 @@ Definition forged (c : cfg) (f : frame) : bool :=
 
 Definition hunted (s : state) (m : mac) : bool := hunt_has m (hunt s).
 
-(* configuration sanity used by the theorems: we are not the router *)
-Definition cfg_ok (c : cfg) : Prop := host_mac c <> router_mac c.
+(* configuration sanity used by the theorems: we are not the router, and the router has an address *)
+Definition cfg_ok (c : cfg) : Prop :=
+  host_mac c <> router_mac c /\ host_ip c <> router_ip c /\ router_ip c <> 0.
+
+(* The CALLER asks for a forged frame: a public send call whose arguments put (our MAC, router IP) into the
+   sender fields.  Only AnnounceTo, RequestRaw and Reply can do that; what they send is the caller's doing. *)
+Definition caller_forged (c : cfg) (e : event) : bool :=
+  match e with
+  | ApiAnnounceTo _ ip => ip =? router_ip c
+  | ApiRequestRaw _ sender _ | ApiReply _ sender _ => (aip sender =? router_ip c) && (amac sender =? host_mac c)
+  | _ => false
+  end.
+
+(* loop i holds a decision, taken under the lock while m was in the hunt list, to send m a forged frame *)
+Definition armed_pc (c : cfg) (m : mac) (p : pc) : bool :=
+  match p with
+  | PLooked (Some t) => amac t =? m
+  | PSend f _ => forged c f && (fedst f =? m)
+  | _ => false
+  end.
+Definition armed (c : cfg) (m : mac) (s : state) : nat :=
+  List.length (filter (fun lp => armed_pc c m (lpc lp)) (loops s)).
 
 (* shapes of events, for statements about runs *)
-Definition is_wake_of (i : nat) (e : event) : bool :=
-  match e with Wake j => Nat.eqb i j | _ => false end.
+Definition is_loop_event (i : nat) (e : event) : bool :=
+  match e with Lookup j | Check j | Send j => Nat.eqb i j | _ => false end.
 Definition is_close (e : event) : bool := match e with Close => true | _ => false end.
 Definition is_start_of (m : mac) (e : event) : bool :=
   match e with StartHunt a => amac a =? m | _ => false end.
+Definition is_api_send (e : event) : bool :=
+  match e with
+  | ApiRequest _ | ApiRequestTo _ _ | ApiProbe _ | ApiAnnounceTo _ _ | ApiRequestRaw _ _ _ | ApiReply _ _ _
+  | ApiScan | ApiWhoIs _ _ => true
+  | _ => false
+  end.
 Definition none_of (P : event -> bool) (evs : list event) : Prop :=
   forallb (fun e => negb (P e)) evs = true.
 
-(* loop i exists, was started for address a, and is running / has returned *)
-Definition loop_is (s : state) (i : nat) (a : addr) (running : bool) : Prop :=
-  nth_error (loops s) i = Some (mkLoop a running).
+(* loop i exists, was started for address a, and stands at p *)
+Definition loop_at (s : state) (i : nat) (a : addr) (p : pc) : Prop :=
+  nth_error (loops s) i = Some (mkLoop a p).
+Definition at_select (p : pc) : bool := match p with PTop | PWait => true | _ => false end.
+Definition is_done (p : pc) : bool := match p with PDone | PDied => true | _ => false end.
+Definition live (s : state) (i : nat) : bool :=
+  match nth_error (loops s) i with Some lp => negb (is_done (lpc lp)) | None => false end.
+
+Definition pc_of (s : state) (i : nat) : option pc := option_map lpc (nth_error (loops s) i).
+
+(* ---- recorded defect class ----
+   K4: spoofLoop returns when AnnounceTo fails (a refused write) and leaves the MAC in the hunt list:
+   StartHunt of that MAC is then a no-op, it is never spoofed again, and after StopHunt nothing restores
+   it.  The class: a step of a loop that died this way. *)
+Definition known_C13_write_error_kills (s : state) (e : event) : bool :=
+  match e with
+  | Lookup i | Check i | Send i => match pc_of s i with Some PDied => true | _ => false end
+  | _ => false
+  end.
 
 (* ---- real time ----
    A timed run attaches a timestamp (any unit) to every event.  Real time enters the theorems only through
-   the FAIRNESS HYPOTHESIS [fair c P tr]: a spoof loop that is running passes its select (6 s ticker or
-   closeChan) — i.e. a Wake of that loop occurs — within one ticker period P, as long as the run is
-   observed that long.  It is a hypothesis about the Go runtime (ticker, scheduler), not about the handler. *)
+   the FAIRNESS HYPOTHESIS [fair c P tr]: whenever a spoof loop has not returned, then within one ticker
+   period P (as long as the run is observed that long) it begins and completes an iteration: it passes its
+   select and does its lookup, then its check, then its write, each when the loop stands at that point and
+   with no other step of that loop in between.  It is a hypothesis about the Go runtime (6 s ticker,
+   scheduler), not about the handler. *)
 Definition timed := list (Z * event).
 Definition events (tr : timed) : list event := map snd tr.
 Definition state_before (c : cfg) (tr : timed) (k : nat) : state :=
@@ -254,17 +463,14 @@ Definition observed_until (tr : timed) (t : Z) : Prop :=
   exists k' t' e', nth_error tr k' = Some (t', e') /\ (t <= t')%Z.
 
 Definition fair (c : cfg) (P : Z) (tr : timed) : Prop :=
-  forall k t e i a,
+  forall k t e i,
     nth_error tr k = Some (t, e) ->
-    loop_is (state_before c tr (S k)) i a true ->
+    live (state_before c tr (S k)) i = true ->
     observed_until tr (t + P) ->
-    exists j t', (k < j)%nat /\ nth_error tr j = Some (t', Wake i) /\ (t' <= t + P)%Z.
-
-(* ---- recorded defect classes ----
-   None is left in the current tree.  The three classes found on the original code were repaired in /repo
-   (see known_findings.txt, FIXLOG.md):
-     K1  probe-reject for the ROUTER's address sent to an unhunted MAC (forged binding outside the hunt list)
-     K2  DESIGN #27: loop membership looked up by IP — a stopped MAC sharing its IPv4 with a hunted MAC was never restored
-     K3  forged replies on the receive path after Close
-   The refutation theorems about the unrepaired model are in the history of this file (verif commits
-   e3a3954, ae1e0b3, dd6b3e8). *)
+    exists j1 j2 j3 t1 t2 t3,
+      (k < j1)%nat /\ (j1 < j2)%nat /\ (j2 < j3)%nat /\ (t3 <= t + P)%Z /\
+      nth_error tr j1 = Some (t1, Lookup i) /\ nth_error tr j2 = Some (t2, Check i) /\
+      nth_error tr j3 = Some (t3, Send i) /\
+      (exists p, pc_of (state_before c tr j1) i = Some p /\ at_select p = true) /\
+      (forall x tx ex, (j1 < x)%nat -> (x < j3)%nat -> x <> j2 -> nth_error tr x = Some (tx, ex) ->
+                       is_loop_event i ex = false).
